@@ -23,14 +23,14 @@ ASSUMPTIONS = [
     'binning clause judged only for native spacing <= 1/4 of the widest mid-point bin (narrower than the statement, see DESIGN.md); FluxBinner with implied (mid-point) widths',
     'own-grid clause is bit-equality; foreign points must lie between the two neighbouring native values (equal to the end value outside the native range)',
 ]
-REQUIRED = {'obs:constant-R-wide': 0.08, 'grids:multi': 0.35, 'grids:single': 0.15, 'family:emission': 0.2, 'family:transmission': 0.2}
+REQUIRED = {'grids:tie-for-largest': 0.04, 'obs:constant-R-wide': 0.08, 'grids:multi': 0.35, 'grids:single': 0.15, 'family:emission': 0.2, 'family:transmission': 0.2}
 
 
 @st.composite
 def _case(draw):
     family = draw(st.sampled_from(['transmission', 'emission']))
     n0 = draw(S.ints(12, 40))
-    kinds = draw(st.lists(st.sampled_from(['nested2', 'offset', 'own', 'same', 'nested3']), min_size=3, max_size=3))
+    kinds = draw(st.lists(st.sampled_from(['nested2', 'offset', 'offset-same-size', 'own', 'same', 'nested3']), min_size=3, max_size=3))
     own = [[draw(st.floats(-0.2, 0.5)), draw(st.floats(0.6, 2.5)), draw(st.floats(0.3, 0.9))] for _ in range(3)]
     i0 = draw(S.ints(0, n0 - 3))
     i1 = draw(S.ints(i0 + 2, n0 - 1))
@@ -64,6 +64,8 @@ def grids_for(case):
             grid = base[1::3]
         elif kind == 'offset':
             grid = (base + 0.37 * w['dwn'])[:-1]
+        elif kind == 'offset-same-size':
+            grid = base + 0.37 * w['dwn']           # as many points as the first molecule's grid: a tie for the largest
         elif kind == 'own':
             a, sc, fr = case['own'][i % 3]
             start = base[0] + a * (base[-1] - base[0])
@@ -97,9 +99,12 @@ def check(case):
     native = np.array(full[0], dtype=float, copy=True)
     fspec = np.array(full[1], dtype=float, copy=True)
     out.applies('native-grid')
-    if not np.array_equal(native, base):
-        out.fail('native-grid', 'native grid is not the grid of the molecule with most points')
+    largest = max(len(g_) for _, g_ in grids.values())
+    if not any(len(g_) == largest and np.array_equal(native, g_) for _, g_ in grids.values()):
+        out.fail('native-grid', 'native grid is not the grid of a molecule with most points')
         return out
+    if sum(1 for _, g_ in grids.values() if len(g_) == largest) > 1 and multi:
+        out.cls('grids:tie-for-largest')
     i0, i1 = case['sub']
     sub = native[i0:i1 + 1].copy()
     inside = i0 > 0 and i1 < len(native) - 1
